@@ -500,3 +500,14 @@ Print Assumptions unpack_any_strict.
 Print Assumptions unpack_any_nonneg.
 Print Assumptions unpack_pkt_strict.
 Print Assumptions unpack_any_truncation.
+
+(* why ct_sizes_ok is needed: a constant Data(-2) vectorized with an Int(4) makes a struct run of size 2 whose
+   second member is logged at position -2 (ct_wf holds, the statement without ct_sizes_ok is false) *)
+Example unpack_any_strict_needs_sizes :
+  let k := {| cc_conf := empty_conf; cc_gen_pack := false; cc_gen_unpack := true; cc_vectorize := true;
+              cc_fields := [CElem 0 (ELeafE (LDataSized (ELit (VInt (-2))) true VNone));
+                            CElem 1 (ELeafE (LInt 4 false None VNone))] |} in
+  ct_wf [(0, k)] = true /\ ct_sizes_ok [(0, k)] = false /\
+  unpack_any 2 true [(0, k)] [1; 2] 0 0 =
+    POk (VPkt 0 [(FN 0, VBytes []); (FN 1, VNone)]) 2 [TChunk 0 []; TChunk (-2) [1; 2]].
+Proof. vm_compute. repeat split. Qed.
